@@ -42,4 +42,7 @@ def run(ctx):
 
 
 def replay(data):
+    if str(data.get("obligation", "")).startswith("regex:"):
+        from . import regexsec
+        return regexsec.replay("C17", data)
     return drv.replay(data)
